@@ -55,3 +55,250 @@ package tsm1
 //@ lemma zigzag_dec_enc C13 bv: forall_i64(x, zz_dec(zz_enc(x)) == x)
 //@ lemma zigzag_enc_dec C13 bv: forall_u64(v, zz_enc(zz_dec(v)) == v)
 //@ lemma zigzag_small_is_small C13 bv: forall_i64(x, (x >= 0 && x < 1000) ==> zz_enc(x) < 2000)
+
+// >>> generated: typed value-slice kernels (gen_values_contracts.py)
+
+//@ pure sorted_v(a) = all(i, 0, len(a), all(j, i+1, len(a), a[i].unixnano < a[j].unixnano))
+//@ pure insertion_v(a, v, r) = 0 <= r && r <= len(a) && all(k, 0, r, a[k].unixnano < v) && all(k, r, len(a), a[k].unixnano >= v)
+//@ pure upper_v(a, v, r) = 0 <= r && r <= len(a) && all(k, 0, r, a[k].unixnano <= v) && all(k, r, len(a), a[k].unixnano > v)
+
+//@ func (FloatValues).search
+//@   props C02 C09 C10
+//@   requires sorted: sorted_v(a)
+//@   loop 1 invariant bounds: 0 <= lo && lo <= hi && hi <= len(a)
+//@   loop 1 invariant below: all(k, 0, lo, a[k].unixnano < v)
+//@   loop 1 invariant above: all(k, hi, len(a), a[k].unixnano >= v)
+//@   loop 1 decreases hi - lo
+//@   ensures point: insertion_v(a, v, result)
+//@   modifies nothing
+
+//@ func (FloatValues).FindRange
+//@   props C02 C09 C10
+//@   requires sorted: sorted_v(a)
+//@   ensures both_or_none: (result0 == -1) == (result1 == -1)
+//@   ensures none_iff: (result0 == -1) == (len(a) == 0 || min > max || a[len(a)-1].unixnano < min || a[0].unixnano > max)
+//@   ensures lo: result0 != -1 ==> insertion_v(a, min, result0)
+//@   ensures hi: result0 != -1 ==> insertion_v(a, max, result1)
+//@   ensures lo_seed: result0 != -1 ==> (result0 == len(a) || a[result0].unixnano >= min) && (result0 == 0 || a[result0-1].unixnano < min)
+//@   ensures hi_seed: result0 != -1 ==> (result1 == len(a) || a[result1].unixnano >= max) && (result1 == 0 || a[result1-1].unixnano < max)
+//@   modifies nothing
+
+// Exclude(min,max): the result holds exactly the elements with t < min or t > max, in order, each with its value.
+//@ func (FloatValues).Exclude
+//@   props C02 C09 C10
+//@   requires sorted: sorted_v(a)
+//@   ensures shrinks: len(result) <= len(a)
+//@   ensures all_in_range_removed: all(k, 0, len(result), result[k].unixnano < min || result[k].unixnano > max)
+//@   ensures below_kept: all(k, 0, len(a), old(a[k].unixnano) < min ==> k < len(result) && result[k].unixnano == old(a[k].unixnano) && result[k].value == old(a[k].value))
+//@   ensures above_kept: all(k, 0, len(a), old(a[k].unixnano) > max ==> k - (len(a) - len(result)) >= 0 && result[k - (len(a) - len(result))].unixnano == old(a[k].unixnano) && result[k - (len(a) - len(result))].value == old(a[k].value))
+//@   ensures low_from_same_index: all(k, 0, len(result), result[k].unixnano < min ==> result[k].unixnano == old(a[k].unixnano) && result[k].value == old(a[k].value))
+//@   ensures high_ts_from_shifted_index: all(k, 0, len(result), result[k].unixnano > max ==> result[k].unixnano == old_elem(a, k + (len(a) - len(result)), unixnano))
+//@   ensures high_val_from_shifted_index: all(k, 0, len(result), result[k].unixnano > max ==> result[k].value == old_elem(a, k + (len(a) - len(result)), value))
+//@   ensures sorted: sorted_v(result)
+//@   modifies a[:]
+
+// Include(min,max): the result holds exactly the elements with min <= t <= max, in order, each with its value.
+//@ func (FloatValues).Include
+//@   props C02 C09
+//@   dead ret1
+//@   requires sorted: sorted_v(a)
+//@   ensures only_in_range: all(k, 0, len(result), min <= result[k].unixnano && result[k].unixnano <= max)
+//@   ensures empty_range: min > max ==> len(result) == 0
+//@   ensures exact_len: all(s_, 0, len(a)+1, all(e_, 0, len(a)+1, (old(insertion_v(a, min, s_)) && old(upper_v(a, max, e_)) && s_ <= e_ && (s_ == len(a) || old_elem(a, s_, unixnano) >= min) && (e_ == 0 || old_elem(a, e_ - 1, unixnano) <= max)) ==> len(result) == e_ - s_))
+//@   ensures exact_ts: all(s_, 0, len(a)+1, all(e_, 0, len(a)+1, (old(insertion_v(a, min, s_)) && old(upper_v(a, max, e_)) && s_ <= e_ && (s_ == len(a) || old_elem(a, s_, unixnano) >= min) && (e_ == 0 || old_elem(a, e_ - 1, unixnano) <= max)) ==> all(k, 0, len(result), result[k].unixnano == old_elem(a, k + s_, unixnano))))
+//@   ensures exact_val: all(s_, 0, len(a)+1, all(e_, 0, len(a)+1, (old(insertion_v(a, min, s_)) && old(upper_v(a, max, e_)) && s_ <= e_ && (s_ == len(a) || old_elem(a, s_, unixnano) >= min) && (e_ == 0 || old_elem(a, e_ - 1, unixnano) <= max)) ==> all(k, 0, len(result), result[k].value == old_elem(a, k + s_, value))))
+//@   ensures sorted: sorted_v(result)
+//@   modifies a[:]
+
+//@ func (IntegerValues).search
+//@   props C02 C09 C10
+//@   requires sorted: sorted_v(a)
+//@   loop 1 invariant bounds: 0 <= lo && lo <= hi && hi <= len(a)
+//@   loop 1 invariant below: all(k, 0, lo, a[k].unixnano < v)
+//@   loop 1 invariant above: all(k, hi, len(a), a[k].unixnano >= v)
+//@   loop 1 decreases hi - lo
+//@   ensures point: insertion_v(a, v, result)
+//@   modifies nothing
+
+//@ func (IntegerValues).FindRange
+//@   props C02 C09 C10
+//@   requires sorted: sorted_v(a)
+//@   ensures both_or_none: (result0 == -1) == (result1 == -1)
+//@   ensures none_iff: (result0 == -1) == (len(a) == 0 || min > max || a[len(a)-1].unixnano < min || a[0].unixnano > max)
+//@   ensures lo: result0 != -1 ==> insertion_v(a, min, result0)
+//@   ensures hi: result0 != -1 ==> insertion_v(a, max, result1)
+//@   ensures lo_seed: result0 != -1 ==> (result0 == len(a) || a[result0].unixnano >= min) && (result0 == 0 || a[result0-1].unixnano < min)
+//@   ensures hi_seed: result0 != -1 ==> (result1 == len(a) || a[result1].unixnano >= max) && (result1 == 0 || a[result1-1].unixnano < max)
+//@   modifies nothing
+
+// Exclude(min,max): the result holds exactly the elements with t < min or t > max, in order, each with its value.
+//@ func (IntegerValues).Exclude
+//@   props C02 C09 C10
+//@   requires sorted: sorted_v(a)
+//@   ensures shrinks: len(result) <= len(a)
+//@   ensures all_in_range_removed: all(k, 0, len(result), result[k].unixnano < min || result[k].unixnano > max)
+//@   ensures below_kept: all(k, 0, len(a), old(a[k].unixnano) < min ==> k < len(result) && result[k].unixnano == old(a[k].unixnano) && result[k].value == old(a[k].value))
+//@   ensures above_kept: all(k, 0, len(a), old(a[k].unixnano) > max ==> k - (len(a) - len(result)) >= 0 && result[k - (len(a) - len(result))].unixnano == old(a[k].unixnano) && result[k - (len(a) - len(result))].value == old(a[k].value))
+//@   ensures low_from_same_index: all(k, 0, len(result), result[k].unixnano < min ==> result[k].unixnano == old(a[k].unixnano) && result[k].value == old(a[k].value))
+//@   ensures high_ts_from_shifted_index: all(k, 0, len(result), result[k].unixnano > max ==> result[k].unixnano == old_elem(a, k + (len(a) - len(result)), unixnano))
+//@   ensures high_val_from_shifted_index: all(k, 0, len(result), result[k].unixnano > max ==> result[k].value == old_elem(a, k + (len(a) - len(result)), value))
+//@   ensures sorted: sorted_v(result)
+//@   modifies a[:]
+
+// Include(min,max): the result holds exactly the elements with min <= t <= max, in order, each with its value.
+//@ func (IntegerValues).Include
+//@   props C02 C09
+//@   dead ret1
+//@   requires sorted: sorted_v(a)
+//@   ensures only_in_range: all(k, 0, len(result), min <= result[k].unixnano && result[k].unixnano <= max)
+//@   ensures empty_range: min > max ==> len(result) == 0
+//@   ensures exact_len: all(s_, 0, len(a)+1, all(e_, 0, len(a)+1, (old(insertion_v(a, min, s_)) && old(upper_v(a, max, e_)) && s_ <= e_ && (s_ == len(a) || old_elem(a, s_, unixnano) >= min) && (e_ == 0 || old_elem(a, e_ - 1, unixnano) <= max)) ==> len(result) == e_ - s_))
+//@   ensures exact_ts: all(s_, 0, len(a)+1, all(e_, 0, len(a)+1, (old(insertion_v(a, min, s_)) && old(upper_v(a, max, e_)) && s_ <= e_ && (s_ == len(a) || old_elem(a, s_, unixnano) >= min) && (e_ == 0 || old_elem(a, e_ - 1, unixnano) <= max)) ==> all(k, 0, len(result), result[k].unixnano == old_elem(a, k + s_, unixnano))))
+//@   ensures exact_val: all(s_, 0, len(a)+1, all(e_, 0, len(a)+1, (old(insertion_v(a, min, s_)) && old(upper_v(a, max, e_)) && s_ <= e_ && (s_ == len(a) || old_elem(a, s_, unixnano) >= min) && (e_ == 0 || old_elem(a, e_ - 1, unixnano) <= max)) ==> all(k, 0, len(result), result[k].value == old_elem(a, k + s_, value))))
+//@   ensures sorted: sorted_v(result)
+//@   modifies a[:]
+
+//@ func (UnsignedValues).search
+//@   props C02 C09 C10
+//@   requires sorted: sorted_v(a)
+//@   loop 1 invariant bounds: 0 <= lo && lo <= hi && hi <= len(a)
+//@   loop 1 invariant below: all(k, 0, lo, a[k].unixnano < v)
+//@   loop 1 invariant above: all(k, hi, len(a), a[k].unixnano >= v)
+//@   loop 1 decreases hi - lo
+//@   ensures point: insertion_v(a, v, result)
+//@   modifies nothing
+
+//@ func (UnsignedValues).FindRange
+//@   props C02 C09 C10
+//@   requires sorted: sorted_v(a)
+//@   ensures both_or_none: (result0 == -1) == (result1 == -1)
+//@   ensures none_iff: (result0 == -1) == (len(a) == 0 || min > max || a[len(a)-1].unixnano < min || a[0].unixnano > max)
+//@   ensures lo: result0 != -1 ==> insertion_v(a, min, result0)
+//@   ensures hi: result0 != -1 ==> insertion_v(a, max, result1)
+//@   ensures lo_seed: result0 != -1 ==> (result0 == len(a) || a[result0].unixnano >= min) && (result0 == 0 || a[result0-1].unixnano < min)
+//@   ensures hi_seed: result0 != -1 ==> (result1 == len(a) || a[result1].unixnano >= max) && (result1 == 0 || a[result1-1].unixnano < max)
+//@   modifies nothing
+
+// Exclude(min,max): the result holds exactly the elements with t < min or t > max, in order, each with its value.
+//@ func (UnsignedValues).Exclude
+//@   props C02 C09 C10
+//@   requires sorted: sorted_v(a)
+//@   ensures shrinks: len(result) <= len(a)
+//@   ensures all_in_range_removed: all(k, 0, len(result), result[k].unixnano < min || result[k].unixnano > max)
+//@   ensures below_kept: all(k, 0, len(a), old(a[k].unixnano) < min ==> k < len(result) && result[k].unixnano == old(a[k].unixnano) && result[k].value == old(a[k].value))
+//@   ensures above_kept: all(k, 0, len(a), old(a[k].unixnano) > max ==> k - (len(a) - len(result)) >= 0 && result[k - (len(a) - len(result))].unixnano == old(a[k].unixnano) && result[k - (len(a) - len(result))].value == old(a[k].value))
+//@   ensures low_from_same_index: all(k, 0, len(result), result[k].unixnano < min ==> result[k].unixnano == old(a[k].unixnano) && result[k].value == old(a[k].value))
+//@   ensures high_ts_from_shifted_index: all(k, 0, len(result), result[k].unixnano > max ==> result[k].unixnano == old_elem(a, k + (len(a) - len(result)), unixnano))
+//@   ensures high_val_from_shifted_index: all(k, 0, len(result), result[k].unixnano > max ==> result[k].value == old_elem(a, k + (len(a) - len(result)), value))
+//@   ensures sorted: sorted_v(result)
+//@   modifies a[:]
+
+// Include(min,max): the result holds exactly the elements with min <= t <= max, in order, each with its value.
+//@ func (UnsignedValues).Include
+//@   props C02 C09
+//@   dead ret1
+//@   requires sorted: sorted_v(a)
+//@   ensures only_in_range: all(k, 0, len(result), min <= result[k].unixnano && result[k].unixnano <= max)
+//@   ensures empty_range: min > max ==> len(result) == 0
+//@   ensures exact_len: all(s_, 0, len(a)+1, all(e_, 0, len(a)+1, (old(insertion_v(a, min, s_)) && old(upper_v(a, max, e_)) && s_ <= e_ && (s_ == len(a) || old_elem(a, s_, unixnano) >= min) && (e_ == 0 || old_elem(a, e_ - 1, unixnano) <= max)) ==> len(result) == e_ - s_))
+//@   ensures exact_ts: all(s_, 0, len(a)+1, all(e_, 0, len(a)+1, (old(insertion_v(a, min, s_)) && old(upper_v(a, max, e_)) && s_ <= e_ && (s_ == len(a) || old_elem(a, s_, unixnano) >= min) && (e_ == 0 || old_elem(a, e_ - 1, unixnano) <= max)) ==> all(k, 0, len(result), result[k].unixnano == old_elem(a, k + s_, unixnano))))
+//@   ensures exact_val: all(s_, 0, len(a)+1, all(e_, 0, len(a)+1, (old(insertion_v(a, min, s_)) && old(upper_v(a, max, e_)) && s_ <= e_ && (s_ == len(a) || old_elem(a, s_, unixnano) >= min) && (e_ == 0 || old_elem(a, e_ - 1, unixnano) <= max)) ==> all(k, 0, len(result), result[k].value == old_elem(a, k + s_, value))))
+//@   ensures sorted: sorted_v(result)
+//@   modifies a[:]
+
+//@ func (StringValues).search
+//@   props C02 C09 C10
+//@   requires sorted: sorted_v(a)
+//@   loop 1 invariant bounds: 0 <= lo && lo <= hi && hi <= len(a)
+//@   loop 1 invariant below: all(k, 0, lo, a[k].unixnano < v)
+//@   loop 1 invariant above: all(k, hi, len(a), a[k].unixnano >= v)
+//@   loop 1 decreases hi - lo
+//@   ensures point: insertion_v(a, v, result)
+//@   modifies nothing
+
+//@ func (StringValues).FindRange
+//@   props C02 C09 C10
+//@   requires sorted: sorted_v(a)
+//@   ensures both_or_none: (result0 == -1) == (result1 == -1)
+//@   ensures none_iff: (result0 == -1) == (len(a) == 0 || min > max || a[len(a)-1].unixnano < min || a[0].unixnano > max)
+//@   ensures lo: result0 != -1 ==> insertion_v(a, min, result0)
+//@   ensures hi: result0 != -1 ==> insertion_v(a, max, result1)
+//@   ensures lo_seed: result0 != -1 ==> (result0 == len(a) || a[result0].unixnano >= min) && (result0 == 0 || a[result0-1].unixnano < min)
+//@   ensures hi_seed: result0 != -1 ==> (result1 == len(a) || a[result1].unixnano >= max) && (result1 == 0 || a[result1-1].unixnano < max)
+//@   modifies nothing
+
+// Exclude(min,max): the result holds exactly the elements with t < min or t > max, in order, each with its value.
+//@ func (StringValues).Exclude
+//@   props C02 C09 C10
+//@   requires sorted: sorted_v(a)
+//@   ensures shrinks: len(result) <= len(a)
+//@   ensures all_in_range_removed: all(k, 0, len(result), result[k].unixnano < min || result[k].unixnano > max)
+//@   ensures below_kept: all(k, 0, len(a), old(a[k].unixnano) < min ==> k < len(result) && result[k].unixnano == old(a[k].unixnano) && result[k].value == old(a[k].value))
+//@   ensures above_kept: all(k, 0, len(a), old(a[k].unixnano) > max ==> k - (len(a) - len(result)) >= 0 && result[k - (len(a) - len(result))].unixnano == old(a[k].unixnano) && result[k - (len(a) - len(result))].value == old(a[k].value))
+//@   ensures low_from_same_index: all(k, 0, len(result), result[k].unixnano < min ==> result[k].unixnano == old(a[k].unixnano) && result[k].value == old(a[k].value))
+//@   ensures high_ts_from_shifted_index: all(k, 0, len(result), result[k].unixnano > max ==> result[k].unixnano == old_elem(a, k + (len(a) - len(result)), unixnano))
+//@   ensures high_val_from_shifted_index: all(k, 0, len(result), result[k].unixnano > max ==> result[k].value == old_elem(a, k + (len(a) - len(result)), value))
+//@   ensures sorted: sorted_v(result)
+//@   modifies a[:]
+
+// Include(min,max): the result holds exactly the elements with min <= t <= max, in order, each with its value.
+//@ func (StringValues).Include
+//@   props C02 C09
+//@   dead ret1
+//@   requires sorted: sorted_v(a)
+//@   ensures only_in_range: all(k, 0, len(result), min <= result[k].unixnano && result[k].unixnano <= max)
+//@   ensures empty_range: min > max ==> len(result) == 0
+//@   ensures exact_len: all(s_, 0, len(a)+1, all(e_, 0, len(a)+1, (old(insertion_v(a, min, s_)) && old(upper_v(a, max, e_)) && s_ <= e_ && (s_ == len(a) || old_elem(a, s_, unixnano) >= min) && (e_ == 0 || old_elem(a, e_ - 1, unixnano) <= max)) ==> len(result) == e_ - s_))
+//@   ensures exact_ts: all(s_, 0, len(a)+1, all(e_, 0, len(a)+1, (old(insertion_v(a, min, s_)) && old(upper_v(a, max, e_)) && s_ <= e_ && (s_ == len(a) || old_elem(a, s_, unixnano) >= min) && (e_ == 0 || old_elem(a, e_ - 1, unixnano) <= max)) ==> all(k, 0, len(result), result[k].unixnano == old_elem(a, k + s_, unixnano))))
+//@   ensures exact_val: all(s_, 0, len(a)+1, all(e_, 0, len(a)+1, (old(insertion_v(a, min, s_)) && old(upper_v(a, max, e_)) && s_ <= e_ && (s_ == len(a) || old_elem(a, s_, unixnano) >= min) && (e_ == 0 || old_elem(a, e_ - 1, unixnano) <= max)) ==> all(k, 0, len(result), result[k].value == old_elem(a, k + s_, value))))
+//@   ensures sorted: sorted_v(result)
+//@   modifies a[:]
+
+//@ func (BooleanValues).search
+//@   props C02 C09 C10
+//@   requires sorted: sorted_v(a)
+//@   loop 1 invariant bounds: 0 <= lo && lo <= hi && hi <= len(a)
+//@   loop 1 invariant below: all(k, 0, lo, a[k].unixnano < v)
+//@   loop 1 invariant above: all(k, hi, len(a), a[k].unixnano >= v)
+//@   loop 1 decreases hi - lo
+//@   ensures point: insertion_v(a, v, result)
+//@   modifies nothing
+
+//@ func (BooleanValues).FindRange
+//@   props C02 C09 C10
+//@   requires sorted: sorted_v(a)
+//@   ensures both_or_none: (result0 == -1) == (result1 == -1)
+//@   ensures none_iff: (result0 == -1) == (len(a) == 0 || min > max || a[len(a)-1].unixnano < min || a[0].unixnano > max)
+//@   ensures lo: result0 != -1 ==> insertion_v(a, min, result0)
+//@   ensures hi: result0 != -1 ==> insertion_v(a, max, result1)
+//@   ensures lo_seed: result0 != -1 ==> (result0 == len(a) || a[result0].unixnano >= min) && (result0 == 0 || a[result0-1].unixnano < min)
+//@   ensures hi_seed: result0 != -1 ==> (result1 == len(a) || a[result1].unixnano >= max) && (result1 == 0 || a[result1-1].unixnano < max)
+//@   modifies nothing
+
+// Exclude(min,max): the result holds exactly the elements with t < min or t > max, in order, each with its value.
+//@ func (BooleanValues).Exclude
+//@   props C02 C09 C10
+//@   requires sorted: sorted_v(a)
+//@   ensures shrinks: len(result) <= len(a)
+//@   ensures all_in_range_removed: all(k, 0, len(result), result[k].unixnano < min || result[k].unixnano > max)
+//@   ensures below_kept: all(k, 0, len(a), old(a[k].unixnano) < min ==> k < len(result) && result[k].unixnano == old(a[k].unixnano) && result[k].value == old(a[k].value))
+//@   ensures above_kept: all(k, 0, len(a), old(a[k].unixnano) > max ==> k - (len(a) - len(result)) >= 0 && result[k - (len(a) - len(result))].unixnano == old(a[k].unixnano) && result[k - (len(a) - len(result))].value == old(a[k].value))
+//@   ensures low_from_same_index: all(k, 0, len(result), result[k].unixnano < min ==> result[k].unixnano == old(a[k].unixnano) && result[k].value == old(a[k].value))
+//@   ensures high_ts_from_shifted_index: all(k, 0, len(result), result[k].unixnano > max ==> result[k].unixnano == old_elem(a, k + (len(a) - len(result)), unixnano))
+//@   ensures high_val_from_shifted_index: all(k, 0, len(result), result[k].unixnano > max ==> result[k].value == old_elem(a, k + (len(a) - len(result)), value))
+//@   ensures sorted: sorted_v(result)
+//@   modifies a[:]
+
+// Include(min,max): the result holds exactly the elements with min <= t <= max, in order, each with its value.
+//@ func (BooleanValues).Include
+//@   props C02 C09
+//@   dead ret1
+//@   requires sorted: sorted_v(a)
+//@   ensures only_in_range: all(k, 0, len(result), min <= result[k].unixnano && result[k].unixnano <= max)
+//@   ensures empty_range: min > max ==> len(result) == 0
+//@   ensures exact_len: all(s_, 0, len(a)+1, all(e_, 0, len(a)+1, (old(insertion_v(a, min, s_)) && old(upper_v(a, max, e_)) && s_ <= e_ && (s_ == len(a) || old_elem(a, s_, unixnano) >= min) && (e_ == 0 || old_elem(a, e_ - 1, unixnano) <= max)) ==> len(result) == e_ - s_))
+//@   ensures exact_ts: all(s_, 0, len(a)+1, all(e_, 0, len(a)+1, (old(insertion_v(a, min, s_)) && old(upper_v(a, max, e_)) && s_ <= e_ && (s_ == len(a) || old_elem(a, s_, unixnano) >= min) && (e_ == 0 || old_elem(a, e_ - 1, unixnano) <= max)) ==> all(k, 0, len(result), result[k].unixnano == old_elem(a, k + s_, unixnano))))
+//@   ensures exact_val: all(s_, 0, len(a)+1, all(e_, 0, len(a)+1, (old(insertion_v(a, min, s_)) && old(upper_v(a, max, e_)) && s_ <= e_ && (s_ == len(a) || old_elem(a, s_, unixnano) >= min) && (e_ == 0 || old_elem(a, e_ - 1, unixnano) <= max)) ==> all(k, 0, len(result), result[k].value == old_elem(a, k + s_, value))))
+//@   ensures sorted: sorted_v(result)
+//@   modifies a[:]
+// <<< generated: typed value-slice kernels
